@@ -67,14 +67,15 @@ Proof. intros [|a l] H; [reflexivity|]. exfalso. apply (H a). left. reflexivity.
 (* ------------------------------------------------------------------------- bodies *)
 Lemma wf_body_mono : forall b d d', incl d d' -> wf_body d b -> wf_body d' b.
 Proof.
-  destruct b as [t|b1 d1 b2 d2]; intros d d' H Hwf; cbn [wf_body] in *; [exact I|].
+  destruct b as [t|b1 d1 b2 d2|tid]; intros d d' H Hwf; cbn [wf_body] in *; [exact I| |exact Hwf].
   destruct Hwf as (H1 & H2 & H3 & H4). repeat split; try assumption; eapply incl_tran; eassumption.
 Qed.
 
 Lemma abs_body_sim : forall b d d', (forall x, mem x d = mem x d') -> sb_sim (abs_body d b) (abs_body d' b).
 Proof.
-  destruct b as [t|b1 d1 b2 d2]; intros d d' H; cbn [abs_body].
+  destruct b as [t|b1 d1 b2 d2|tid]; intros d d' H; cbn [abs_body].
   - constructor. intros x _. apply H.
+  - apply sb_sim_refl.
   - apply sb_sim_refl.
 Qed.
 
@@ -600,7 +601,7 @@ Theorem merge_general_ok : forall c st rid1 rid2 r1 r2,
               extends st st' /\ coherent st' (length (recs st)) /\
               srec_sim (abs st' (length (recs st))) (smerge (abs st rid1) (abs st rid2)).
 Proof.
-  intros c st rid1 rid2 r1 r2 (_ & Hrev & Hpm & _) Hr1 Hr2 (r1' & Hr1' & Hnd1 & Hok1) (r2' & Hr2' & Hnd2 & Hok2).
+  intros c st rid1 rid2 r1 r2 (_ & Hrev & Hpm & _ & _) Hr1 Hr2 (r1' & Hr1' & Hnd1 & Hok1) (r2' & Hr2' & Hnd2 & Hok2).
   rewrite Hr1 in Hr1'. inversion Hr1'; subst r1'. clear Hr1'.
   rewrite Hr2 in Hr2'. inversion Hr2'; subst r2'. clear Hr2'.
   unfold merge_general. rewrite Hrev, Hpm.
@@ -832,11 +833,40 @@ Proof.
   - exists []. rewrite app_nil_r. split; [reflexivity|]. split; [split; reflexivity|]. intros t' Ht. discriminate.
 Qed.
 
-Lemma slookup_sden_lit : forall l k, slookup k (sden_lit l) = option_map (lit_tgt (lit_names l)) (alookup k l).
+Lemma slookup_sden_lit : forall l k, slookup k (sden_lit l) = option_map (lit_tgt (lit_scope l)) (alookup k l).
 Proof.
-  intros l k. unfold sden_lit. generalize (lit_names l) as names. intros names.
+  intros l k. unfold sden_lit. generalize (lit_scope l) as names. intros names.
   induction l as [|[k' d] l IH]; [reflexivity|]. cbn [map fst snd slookup alookup].
   destruct (N.eqb k k'); [reflexivity | exact IH].
+Qed.
+
+Lemma lit_scope_names : forall l, incl (lit_scope l) (lit_names l).
+Proof.
+  intros l x Hx. unfold lit_scope in Hx. apply in_map_iff in Hx. destruct Hx as [[k d] [E Hin]].
+  apply filter_In in Hin. cbn [fst] in E. subst x. apply in_map_iff. exists (k, d). split; [reflexivity | tauto].
+Qed.
+
+Lemma fld_ok_mono : forall ths rid keys keys' f, incl keys keys' -> fld_ok ths rid keys f -> fld_ok ths rid keys' f.
+Proof.
+  intros ths rid keys keys' f Hinc H. unfold fld_ok in *. destruct (ival f) as [tid|]; [|exact I].
+  destruct H as (th & Hth & Htok). exists th. split; [exact Hth|].
+  destruct th as [b|o [d|] [c|]]; cbn [thunk_ok] in *; try contradiction; [exact Htok|].
+  destruct Htok as (Hc & Hwf & Hd). repeat split; try assumption. eapply incl_tran; eassumption.
+Qed.
+
+(* with the proposed patch the insertion of the dynamically named fields adds no indirection *)
+Lemma insert_dyn_id : forall c l ths r, c_wrap_dyn c = false -> insert_dyn c ths l r = (ths, r).
+Proof.
+  intros c. induction l as [|[k0 d] l IH]; intros ths r Hw; [destruct r; reflexivity|].
+  destruct r as [|[k f] r]; [reflexivity|]. cbn [insert_dyn].
+  assert (Hstep : (match fdyn d, ival f with
+                   | true, Some tid => let (ths1, tid1) := closurize_dyn c ths tid in
+                                       (ths1, {| iprio := iprio f; ival := Some tid1 |})
+                   | _, _ => (ths, f)
+                   end) = (ths, f)).
+  { destruct (fdyn d); [|reflexivity]. destruct f as [p [tid|]]; cbn [ival iprio]; [|reflexivity].
+    unfold closurize_dyn. rewrite Hw. destruct (nth_error ths tid) as [[b|o dd cc]|]; reflexivity. }
+  rewrite Hstep, (IH ths r Hw). reflexivity.
 Qed.
 
 Lemma patch_prefix : forall rid n0 keys outs ths3 ths4,
@@ -862,8 +892,8 @@ Theorem eval_literal_ok : forall c st l,
               extends st st' /\ coherent st' (length (recs st)) /\
               srec_sim (abs st' (length (recs st))) (sden_lit l).
 Proof.
-  intros c st l (Hu & _ & Hpm & Han) Hnd. unfold eval_literal. rewrite Hpm.
-  set (ths0 := thunks st). set (names := lit_names l).
+  intros c st l (Hu & _ & Hpm & Hw & Han) Hnd. unfold eval_literal. rewrite Hpm.
+  set (ths0 := thunks st). set (names := lit_scope l).
   rewrite alloc_lit_thread.
   destruct (thread fdef (lit_step c names) ths0 l) as [ths3 r] eqn:E1.
   rewrite <- (app_nil_r ths0) in E1.
@@ -872,17 +902,19 @@ Proof.
               l [] ths3 r (fun _ _ _ => I) E1) as (e1 & -> & HF & Hfr & Hndt).
   rewrite app_nil_r in *.
   set (Q := fun (d : fdef) (f' : ifld) => out_ok (length ths0) names (ths0 ++ e1) (lit_tgt names d) f').
-  assert (Hk : ikeys r = names) by (apply (Forall2_keys fdef Q _ _ HF)).
+  assert (Hk : ikeys r = lit_names l) by (apply (Forall2_keys fdef Q _ _ HF)).
+  assert (Hsc : incl names (ikeys r)) by (rewrite Hk; apply lit_scope_names).
   assert (Hpre : forall k f, In (k, f) r -> pre_fld (length ths0) names (ths0 ++ e1) f).
   { intros k f Hin. destruct (Forall2_In_r fdef Q _ _ HF k f Hin) as (x & _ & Ho). eapply out_ok_pre_fld. exact Ho. }
   destruct (patch_all_ok (length (recs st)) (length ths0) names r (ths0 ++ e1) Hpre Hndt) as (ths4 & Hpatch & Hlen4 & Hnth4).
-  rewrite Hpatch. exists {| thunks := ths4; recs := recs st ++ [r] |}. split; [reflexivity|]. split; [|split].
+  rewrite Hpatch, (insert_dyn_id c l ths4 r Hw).
+  exists {| thunks := ths4; recs := recs st ++ [r] |}. split; [reflexivity|]. split; [|split].
   - split; [exists [r]; reflexivity|]. cbn [thunks]. fold ths0. intros i Hi.
     rewrite (patch_prefix _ _ _ _ _ _ Hnth4 Hpre i Hi). apply nth_error_app1. exact Hi.
   - exists r. cbn [recs thunks]. split; [rewrite nth_error_app2 by lia; rewrite Nat.sub_diag; reflexivity|].
     split; [rewrite Hk; exact Hnd|]. intros k f Hin.
     destruct (Forall2_In_r fdef Q _ _ HF k f Hin) as (x & _ & Ho).
-    rewrite Hk. exact (proj2 (out_ok_patched _ _ _ _ _ _ _ _ _ Hnth4 Hin Ho)).
+    eapply fld_ok_mono; [exact Hsc|]. exact (proj2 (out_ok_patched _ _ _ _ _ _ _ _ _ Hnth4 Hin Ho)).
   - intros k. unfold abs. cbn [recs thunks]. rewrite nth_error_app2 by lia. rewrite Nat.sub_diag. cbn [nth_error].
     rewrite slookup_abs_rec, slookup_sden_lit. fold names.
     pose proof (Forall2_lookup fdef Q _ _ HF k) as Hl. destruct (alookup k l) as [d|]; cbn [option_map].
